@@ -928,7 +928,11 @@ class QueryBuilder(Selectable, Term):  # type:ignore[misc]
             )
 
         self._from = [
-            new_table if table == current_table else _replace(table)  # type:ignore[misc]
+            (
+                new_table
+                if isinstance(table, Table) and table == current_table
+                else _replace(table)
+            )  # type:ignore[misc]
             for table in self._from
         ]
         if self._insert_table == current_table:
@@ -1838,8 +1842,9 @@ class Joiner:
 
 def _replace_join_item(item: Any, current_table: Table | None, new_table: Table | None) -> Any:
     """The joined item is a table (replaced when it is the table in question) or a subquery (searched)."""
-    if item == current_table:
-        return new_table
+    if isinstance(item, Table):
+        # only tables compare by value; a set operation inherits Term.__eq__, which builds a criterion
+        return new_table if item == current_table else item
     if isinstance(item, Term):
         return item.replace_table(current_table, new_table)
     return item
